@@ -3467,13 +3467,12 @@ class NonTensorData:
         )(*args, **kwargs)
 
     def _multithread_rebuild(self, *args, **kwargs):
-        kwargs["filter_empty"] = False
-        return _wrap_method(
-            self,
-            "_multithread_rebuild",
-            self._tensordict._multithread_rebuild,
-            nowarn=True,
-        )(*args, **kwargs)
+        # no tensor to rebuild: the entry of the result is the one _apply_nest makes (a copy of self
+        # with the batch_size / device overrides), whatever out= holds under the key
+        return self._apply_nest(
+            batch_size=kwargs.get("batch_size"),
+            device=kwargs.get("device", NO_DEFAULT),
+        )
 
     def tolist(self):
         """Converts the data in a list if the batch-size is non-empty.
